@@ -166,8 +166,25 @@ func pnum(r *big.Rat) string { return exactDec(r) }
 
 func showString(sid int) string { return fmt.Sprintf("s%d x", sid) }
 
-// render writes the content stream an independent PDF producer would write.
-func render(p []op, forms map[string]*core.Stream) []byte {
+// matrixArray is the /Matrix entry of a form dictionary (integers and reals mixed, as
+// producers write them).
+func matrixArray(m *mat) core.Array {
+	arr := core.Array{}
+	for i, r := range m {
+		if r.IsInt() && i%2 == 0 {
+			arr = append(arr, core.Int(r.Num().Int64()))
+		} else {
+			f, _ := r.Float64()
+			arr = append(arr, core.Real(f))
+		}
+	}
+	return arr
+}
+
+// renderWith writes the content stream an independent PDF producer would write; do
+// supplies the resource name under which a form is invoked in the current scope (and
+// is where the form itself gets written).
+func renderWith(p []op, do func(f *form) string) []byte {
 	var sb strings.Builder
 	for _, o := range p {
 		switch o.K {
@@ -180,27 +197,7 @@ func render(p []op, forms map[string]*core.Stream) []byte {
 		case "\"":
 			sb.WriteString(pnum(o.N[0]) + " " + pnum(o.N[1]) + " (" + showString(o.Sid) + ") \"")
 		case "Do":
-			name := fmt.Sprintf("Fm%d", len(forms))
-			d := core.Dict{"Type": core.Name("XObject"), "Subtype": core.Name("Form")}
-			if o.Form.M != nil {
-				arr := core.Array{}
-				for i, r := range o.Form.M {
-					if r.IsInt() && i%2 == 0 {
-						arr = append(arr, core.Int(r.Num().Int64()))
-					} else {
-						f, _ := r.Float64()
-						arr = append(arr, core.Real(f))
-					}
-				}
-				d["Matrix"] = arr
-			}
-			st := &core.Stream{Dict: d}
-			forms[name] = st
-			st.Data = render(o.Form.Body, forms)
-			if len(st.Data) == 0 {
-				st.Data = []byte(" ")
-			}
-			sb.WriteString("/" + name + " Do")
+			sb.WriteString("/" + do(o.Form) + " Do")
 		case "L":
 			sb.WriteString(pnum(o.N[0]) + " " + pnum(o.N[1]) + " m " + pnum(o.N[2]) + " " + pnum(o.N[3]) + " l S")
 		default:
@@ -212,6 +209,25 @@ func render(p []op, forms map[string]*core.Stream) []byte {
 		sb.WriteString("\n")
 	}
 	return []byte(sb.String())
+}
+
+// render is the flat layout: every form of the program gets a document-wide unique name
+// in the page's /XObject dictionary (one stream per Do); forms have no /Resources.
+func render(p []op, forms map[string]*core.Stream) []byte {
+	return renderWith(p, func(f *form) string {
+		name := fmt.Sprintf("Fm%d", len(forms))
+		d := core.Dict{"Type": core.Name("XObject"), "Subtype": core.Name("Form")}
+		if f.M != nil {
+			d["Matrix"] = matrixArray(f.M)
+		}
+		st := &core.Stream{Dict: d}
+		forms[name] = st
+		st.Data = render(f.Body, forms)
+		if len(st.Data) == 0 {
+			st.Data = []byte(" ")
+		}
+		return name
+	})
 }
 
 func num(r *big.Rat) core.Object {
@@ -297,10 +313,46 @@ type implResult struct {
 	err      error
 	panicked string
 	viaOps   bool
+	raw      bool
+}
+
+// repeatsShow: does the program show one string id more than once (a form invoked
+// repeatedly)?  ExtractFromBytes returns the fragments after tabula's documented removal
+// of duplicates (same text at the same integer-rounded position, "multiple content
+// layers"), which is not what C08 is about; for such programs every show is observed
+// through the documented accessor GetFragmentsRaw instead.  Decided from the program the
+// harness wrote, never from what tabula returned.
+func repeatsShow(p []op) bool {
+	seen := map[int]bool{}
+	var walk func(p []op) bool
+	walk = func(p []op) bool {
+		for _, x := range p {
+			if isShow(x.K) {
+				if seen[x.Sid] {
+					return true
+				}
+				seen[x.Sid] = true
+			}
+			if x.K == "Do" && walk(x.Form.Body) {
+				return true
+			}
+		}
+		return false
+	}
+	return walk(p)
+}
+
+// observe: the fragments of one extraction (see repeatsShow).
+func observe(e *text.Extractor, res *implResult, raw bool) {
+	if raw && res.err == nil {
+		res.raw = true
+		res.frags = e.GetFragmentsRaw()
+	}
 }
 
 func runText(p []op) implResult {
 	var res implResult
+	raw := repeatsShow(p)
 	forms := map[string]*core.Stream{}
 	data := render(p, forms)
 	res.panicked = hx.Safe(func() {
@@ -322,6 +374,7 @@ func runText(p []op) implResult {
 		} else {
 			res.frags, res.err = e.ExtractFromBytes(data)
 		}
+		observe(e, &res, raw)
 	})
 	return res
 }
@@ -372,11 +425,16 @@ type kase struct {
 	Family string `json:"family"`
 	Prog   string `json:"prog"`
 	PDF    string `json:"content_stream,omitempty"`
+	Layout string `json:"resource_layout,omitempty"` // scoped layouts: how names are bound (scope.go)
 }
 
 // checkText runs one text program: correspondence op + statement-level oracles.
 // oracle=false: the program is outside what ISO 32000 defines (unbalanced form content,
 // self-recursive forms); only the model is compared.
+//
+// A program that invokes forms is run once per resource layout (flat, then the scoped
+// layouts of scope.go): the logical program, hence the model's answer and the
+// reference's, is the same in all of them.
 func checkText(c *hx.Ctx, family string, p []op, oracle bool) {
 	toks := strings.Join(tokens(p), " ")
 	r := runRef(p)
@@ -390,59 +448,99 @@ func checkText(c *hx.Ctx, family string, p []op, oracle bool) {
 	if res.viaOps {
 		c.Count("via-Extract(ops)-because-parser-rejects-quote-operators")
 	}
+	if res.raw {
+		c.Count("observed-via-GetFragmentsRaw-because-a-form-is-invoked-repeatedly")
+	}
 	c.Check("C08/panic", res.panicked == "", k, func() string { return res.panicked })
 	c.Op("c08.gs "+toks, implLine(res, r))
 	nontrivial := false
 	if oracle && res.panicked == "" {
-		if !c.Check("C08/error-class", (res.err != nil) == r.err, k, func() string {
-			return fmt.Sprintf("extraction error=%v, expected error=%v (unmatched Q)", res.err, r.err)
-		}) {
-			return
-		}
+		nontrivial = textOracles(c, "C08/", res, r, k)
 		if r.err {
 			c.Count("result:error")
-			c.Case(toks, false)
-			return
-		}
-		if !c.Check("C08/fragment-count", len(res.frags) == len(r.shows), k, func() string {
-			return fmt.Sprintf("%d fragments for %d shows", len(res.frags), len(r.shows))
-		}) {
-			return
-		}
-		for i, f := range res.frags {
-			sh := r.shows[i]
-			if sh.known {
-				nontrivial = true
-				ok := ff(f.X) == pnum(sh.x) && ff(f.Y) == pnum(sh.y)
-				c.Count("show-after:" + sh.event)
-				c.Check("C08/"+sh.event, ok, k, func() string {
-					return fmt.Sprintf("show #%d %q: reported origin (%s,%s), ISO 32000 origin (0,0)·Tm·CTM = (%s,%s); Tm=%s CTM=%s",
-						i, f.Text, ff(f.X), ff(f.Y), pnum(sh.x), pnum(sh.y), sh.tm, sh.ctm)
-				})
-			}
-			if sh.similar {
-				// size² = fs²·|det Tm|·|det CTM|; exact when both scale factors are squares
-				want, _ := sh.size2.Float64()
-				got := f.FontSize * f.FontSize
-				ok := false
-				if sh.sizeExact {
-					ok = ff(got) == pnum(sh.size2)
-				} else {
-					d := got - want
-					if d < 0 {
-						d = -d
-					}
-					ok = d <= want/(1<<40)
-				}
-				c.Count("size-checked")
-				c.Check("C08/fontsize", ok, k, func() string {
-					return fmt.Sprintf("show #%d %q: FontSize=%s, expected sqrt(fs²·|det Tm|·|det CTM|)=sqrt(%s); Tm=%s CTM=%s",
-						i, f.Text, ff(f.FontSize), pnum(sh.size2), sh.tm, sh.ctm)
-				})
-			}
 		}
 	}
 	c.Case(toks, nontrivial)
+
+	if nf := countForms(p); nf > 0 && (quoteParses || !hasQuote(p)) {
+		for _, layout := range scopedLayouts {
+			doc := buildScoped(p, layout)
+			sres := runTextScoped(p, doc)
+			sk := kase{Family: family, Prog: toks, Layout: layout, PDF: doc.dump()}
+			c.Count("layout:" + layout)
+			if doc.reboundNames() {
+				c.Count("layout:" + layout + ":a-name-bound-to-different-forms-in-two-scopes")
+			}
+			c.Check("C08/scoped-panic", sres.panicked == "", sk, func() string { return sres.panicked })
+			c.Op("c08.gs "+toks, implLine(sres, r))
+			nt := false
+			if oracle && sres.panicked == "" {
+				nt = textOracles(c, "C08/scoped-", sres, r, sk)
+			}
+			c.Case(toks+" @"+layout, nt)
+		}
+	}
+}
+
+// textOracles: the statement-level oracles on one extraction of a program whose
+// reference run is r.  Keys are prefix+{error-class, fragment-count, <event>, fontsize}.
+// Returns whether a fragment whose origin the property determines was compared.
+func textOracles(c *hx.Ctx, prefix string, res implResult, r *refRun, k kase) bool {
+	nontrivial := false
+	if !c.Check(prefix+"error-class", (res.err != nil) == r.err, k, func() string {
+		return fmt.Sprintf("extraction error=%v, expected error=%v (unmatched Q)", res.err, r.err)
+	}) {
+		return false
+	}
+	if r.err {
+		return false
+	}
+	if !c.Check(prefix+"fragment-count", len(res.frags) == len(r.shows), k, func() string {
+		return fmt.Sprintf("%d fragments for %d shows: %s", len(res.frags), len(r.shows), fragTexts(res))
+	}) {
+		return false
+	}
+	for i, f := range res.frags {
+		sh := r.shows[i]
+		if sh.known {
+			nontrivial = true
+			ok := ff(f.X) == pnum(sh.x) && ff(f.Y) == pnum(sh.y)
+			c.Count("show-after:" + sh.event)
+			c.Check(prefix+sh.event, ok, k, func() string {
+				return fmt.Sprintf("show #%d %q: reported origin (%s,%s), ISO 32000 origin (0,0)·Tm·CTM = (%s,%s); Tm=%s CTM=%s",
+					i, f.Text, ff(f.X), ff(f.Y), pnum(sh.x), pnum(sh.y), sh.tm, sh.ctm)
+			})
+		}
+		if sh.similar {
+			// size² = fs²·|det Tm|·|det CTM|; exact when both scale factors are squares
+			want, _ := sh.size2.Float64()
+			got := f.FontSize * f.FontSize
+			ok := false
+			if sh.sizeExact {
+				ok = ff(got) == pnum(sh.size2)
+			} else {
+				d := got - want
+				if d < 0 {
+					d = -d
+				}
+				ok = d <= want/(1<<40)
+			}
+			c.Count("size-checked")
+			c.Check(prefix+"fontsize", ok, k, func() string {
+				return fmt.Sprintf("show #%d %q: FontSize=%s, expected sqrt(fs²·|det Tm|·|det CTM|)=sqrt(%s); Tm=%s CTM=%s",
+					i, f.Text, ff(f.FontSize), pnum(sh.size2), sh.tm, sh.ctm)
+			})
+		}
+	}
+	return nontrivial
+}
+
+func fragTexts(r implResult) string {
+	var s []string
+	for _, f := range r.frags {
+		s = append(s, fmt.Sprintf("%q@(%s,%s)", f.Text, ff(f.X), ff(f.Y)))
+	}
+	return strings.Join(s, " ")
 }
 
 // checkGfx: line end points of the graphics extractor for q/Q/cm programs.
@@ -568,7 +666,9 @@ func fragStr(r implResult) string {
 func Run(c *hx.Ctx) {
 	detectQuote()
 	c.Rep.Rule = "operator programs (length ≤ 40, q/Q depth ≤ 8, Form XObjects with /Matrix nested ≤ 3) over integer and dyadic " +
-		"matrices (translations, non-uniform scales, 90° rotations, reflections, integer shears); exhaustive over all ordered pairs of 28 " +
+		"matrices (translations, non-uniform scales, 90° rotations, reflections, integer shears); every program that invokes forms is written " +
+		"in 4 resource layouts (flat page dictionary; per-scope /Resources with local names Fm0.. / pooled names / unique names, forms as " +
+		"indirect objects, a repeated form being one object); pages of 2-4 sibling forms with children of their own and re-invocations; exhaustive over all ordered pairs of 28 " +
 		"positioning operators on a 5-matrix alphabet in 2 layouts; the property's quoted witnesses; q/Q/cm/line programs for the graphics " +
 		"extractor. Cases whose float evaluation could round are dropped by a big.Rat exactness guard. Non-trivial = at least one fragment " +
 		"whose origin the property determines was compared."
@@ -586,6 +686,10 @@ func Run(c *hx.Ctx) {
 			fam = "random-unbalanced-form"
 		}
 		checkText(c, fam, p, oracle)
+	}
+	ns := c.N(1200, 30000)
+	for i := 0; i < ns; i++ {
+		checkText(c, "form-scopes", genScopes(c.Rng.Fork(uint64(4<<32+i))), true)
 	}
 	ng := c.N(1500, 20000)
 	for i := 0; i < ng; i++ {
